@@ -89,7 +89,7 @@ def s2(ck, an):
     fi = an.fa("FutureChain.__init__")
     subj = fi.f.short
     cs = assigns_to_attr(fi, "contracts")
-    ck.floor("assignments of FutureChain.contracts", len(cs), 2)
+    ck.floor("assignments of FutureChain.contracts", len(cs), 1)
     for s in cs:
         v = s.value if isinstance(s, ast.Assign) else None
         k = ast.unparse(v) if v is not None else "?"
@@ -158,6 +158,11 @@ def s3(ck, an):
 
 
 def s4(ck, an):
+    # the chain is resolved to its lead when the request is built: that must happen after the latency-window events
+    fst = an.fa("TradingEnv.step")
+    lat = fst.calls_to("TradingEnv._process_latent_events")
+    mk = fst.calls_to("PortfolioSpace.make_rebalancing_request")
+    ord_before(ck, fst, "S4.lead-resolved-at-execution-time", lat, mk, "_process_latent_events() (which advances the clock)", "building the request (which resolves the chain's lead)")
     fa = an.fa("Rebalancing.make_trades")
     found = False
     for n in walk_function(fa.f.node):
